@@ -187,3 +187,19 @@ MANIFEST_TEXT["C20"] = dict(engine="E-sched", design_ref="DESIGN.md §4 C20",
     technique="stateless model checking of the real function with loom (exhaustive DPOR exploration of all interleavings of 2-4 threads x 1-3 calls)",
     level_text="Every interleaving of the explored thread/call configurations, with every possible assignment of counter values to calls actually observed; the explored code is the library's own temp_file_name.",
     level_note="loom only sees the synchronisation it intercepts (the counter); the free-running corroboration covers declaration-level changes by sampling only.")
+
+PROPS["C18"] = dict(
+    driver="c18", builds=["rel", "dbg"], level="model_checking",
+    rule="E-hist: every sequence of Map(file, ReadOnly|Mutable) / Drop(handle) / Write(handle, first|mid|last element, value) / Read(handle) up to depth d with at most 3 live maps over files of 0, 8, 4088, 4096, 4104, 8192, 65536 and 1 MiB+8 bytes, "
+         "a 12-byte file and a missing file; each history is executed from scratch on the real MemoryMap. Oracle after every action from /proc/self/maps: a successful map is 8-aligned, its whole page-rounded range is mapped to that file, readable "
+         "(writable if mutable), as_ref() equals the file content and len() = size/8; missing / non-multiple-of-8 / empty files give Err; after Drop no page of the dropped range is still mapped to the file and other live maps are intact; with no live "
+         "handle no test file is mapped; a write is visible through every live map of the file and in the file after the map is dropped. A state is a history; all histories are distinct by construction.",
+    bounds={"quick": "depth 1..3, 10 files: 12 808 histories", "thorough": "depth 1..4 over 10 files + depth 5 over 7 files: 1 509 086 histories"},
+    require_counters={},
+    timeout={"quick": 900, "thorough": 4 * 3600},
+    assumptions=[HOOK_ASSUMPTION, "the address space is observed through /proc/self/maps (Linux)", "the only OS refusal provoked is the zero-length mapping"],
+)
+MANIFEST_TEXT["C18"] = dict(engine="E-hist", design_ref="DESIGN.md §4 C18",
+    technique="exhaustive exploration of map/drop/write/read histories on the real MemoryMap with the process address space (/proc/self/maps) and the file contents as oracle",
+    level_text="All histories up to depth 3 (thorough 4-5) with up to 3 live maps over 10 file sizes from 0 bytes to many pages and both modes; every action followed by an address-space and content check.",
+    level_note="Observes mappings through /proc/self/maps; failures other than the zero-length mapping (ENOMEM etc.) are not provoked.")
